@@ -1042,8 +1042,10 @@ fn gen_settings(rng: &mut Rng, sw: &Swarm, comps: &[Component]) -> SettingsDesc 
             });
         }
     }
-    if sw.defaults == 0 && sw.cycles == 0 && rng.chance(1, 5) {
-        // replace one definition by an existing type (its uses name that type)
+    if sw.defaults == 0 && sw.cycles == 0 && !sw.faults && rng.chance(1, 5) {
+        // replace one definition by an existing type (its uses name that type);
+        // not in fault runs: a replaced definition is never converted, so a poison
+        // placed inside it would not fire
         let all: Vec<&(String, Value)> = comps.iter().flat_map(|c| c.defs.iter()).collect();
         if !all.is_empty() {
             let (key, _) = rng.pick(&all);
